@@ -235,6 +235,12 @@ func (g *TG) option(t reflect.Type) string {
 		return ""
 	}
 	k := bt.Kind()
+	if bt == model.TimeT {
+		if _, ok := g.C.Tagged[model.TypeTag{Type: model.TimeT, Tag: "flattime"}]; ok && g.R.IntN(4) == 0 {
+			return ",flattime"
+		}
+		return ""
+	}
 	switch {
 	case k >= reflect.Int && k <= reflect.Int64 && g.R.IntN(3) == 0:
 		return ",flat"
